@@ -45,10 +45,11 @@ class Violation(Exception):
 # ----------------------------------------------------------------------------- values
 class Agg:
     """struct / tuple / enum value / array / closure"""
-    __slots__ = ('ty', 'variant', 'fields')
+    __slots__ = ('ty', 'variant', 'fields', 'cid')
 
-    def __init__(self, ty, variant, fields):
+    def __init__(self, ty, variant, fields, cid=None):
         self.ty, self.variant, self.fields = ty, variant, fields
+        self.cid = cid      # id of the (immutable) constant this value is an unmodified copy of
 
     def __repr__(self):
         return f'Agg(t{self.ty},v{self.variant},{self.fields})'
@@ -128,7 +129,7 @@ def is_sym(v):
 
 def deep(v):
     if isinstance(v, Agg):
-        return Agg(v.ty, v.variant, [deep(x) for x in v.fields])
+        return Agg(v.ty, v.variant, [deep(x) for x in v.fields], v.cid)
     return v
 
 
@@ -280,6 +281,8 @@ class Exec:
         self.root = ([], {})
         self.node = self.root
         self.qidx = 0
+        self._select_cache = {}
+        self._inb_cache = {}
 
     # ---------------- solver
     def check(self, cond):
@@ -446,6 +449,11 @@ class Exec:
         """off + size <= limit without wrap-around"""
         if isinstance(off, int) and isinstance(limit, int):
             return off + size <= limit
+        if isinstance(off, int) and limit is self.len:
+            r = self._inb_cache.get(off + size)
+            if r is None:
+                r = self._inb_cache[off + size] = simp(z3.ULE(bvv(off + size, U), self.len))
+            return r
         o = as_bv(off, U)
         e = o + bvv(size, U)
         return simp(z3.And(z3.ULE(o, e), z3.ULE(e, as_bv(limit, U))))
@@ -471,6 +479,8 @@ class Exec:
                 return self.p._const_cache[key]
             v = self.decode_alloc(c['alloc'], 0, ty)
             if key is not None:
+                if isinstance(v, Agg):
+                    v.cid = len(self.p._const_cache) + 1
                 self.p._const_cache[key] = v
             return v
         raise EngineError('unsupported constant ' + k)
@@ -660,8 +670,13 @@ class Exec:
 
     @staticmethod
     def add_off(a, b):
-        if isinstance(a, int) and isinstance(b, int):
-            return (a + b) & mask(U)
+        if isinstance(a, int):
+            if isinstance(b, int):
+                return (a + b) & mask(U)
+            if a == 0:
+                return b
+        elif isinstance(b, int) and b == 0:
+            return a
         return simp(as_bv(a, U) + as_bv(b, U))
 
     def read_lv(self, lv):
@@ -682,7 +697,15 @@ class Exec:
             return lv[1].data[idx]
         if k == 'symidx':
             arr = self.read_lv(lv[1])
-            return self.sym_select(arr.fields, lv[2])
+            if arr.cid is not None:
+                key = (arr.cid, lv[2].get_id())
+                hit = self._select_cache.get(key)
+                if hit is not None and hit[0] is not None:
+                    return hit[0]
+            r = self.sym_select(arr.fields, lv[2])
+            if arr.cid is not None and (isinstance(r, (int, bool)) or is_sym(r)):
+                self._select_cache[key] = (r, lv[2])     # keep idx alive so its id is not reused
+            return r
         if k == 'srcslice':
             return lv[1]
         raise EngineError('read of place kind ' + k)
@@ -741,9 +764,11 @@ class Exec:
             return
         v = cell.val
         for i in path[:-1]:
+            v.cid = None
             v = v.fields[i]
         if not isinstance(v, Agg):
             raise EngineError('write into non-aggregate')
+        v.cid = None
         v.fields[path[-1]] = val
 
     # ---------------- operands / rvalues
